@@ -664,6 +664,9 @@ static iwrc _jbl_as_json(binn *bn, jbl_json_printer pt, void *op, int lvl, jbl_p
   double dv;
   char key[MAX_BIN_KEY_LEN + 1];
   bool pretty = pf & JBL_PRINT_PRETTY;
+  // same indentation rule as the tree printer (_jbl_node_as_json), so that both forms of a document print the same text
+  const jbl_print_flags_t ppf = pf & ~JBL_PRINT_PRETTY;
+  const int indent = (ppf & JBL_PRINT_PRETTY_INDENT2) ? 2 : (ppf & JBL_PRINT_PRETTY_INDENT4) ? 4 : 1;
 
 #define PT(data_, size_, ch_, count_) do {        \
           rc = pt(data_, size_, ch_, count_, op); \
@@ -682,7 +685,7 @@ static iwrc _jbl_as_json(binn *bn, jbl_json_printer pt, void *op, int lvl, jbl_p
       }
       for (int i = 0; binn_list_next(&iter, &bv); ++i) {
         if (pretty) {
-          PT(0, 0, ' ', lvl + 1);
+          PT(0, 0, ' ', lvl * indent + indent);
         }
         rc = _jbl_as_json(&bv, pt, op, lvl + 1, pf);
         RCGO(rc, finish);
@@ -694,7 +697,7 @@ static iwrc _jbl_as_json(binn *bn, jbl_json_printer pt, void *op, int lvl, jbl_p
         }
       }
       if (bn->count && pretty) {
-        PT(0, 0, ' ', lvl);
+        PT(0, 0, ' ', lvl * indent);
       }
       PT(0, 0, ']', 1);
       break;
@@ -712,7 +715,7 @@ static iwrc _jbl_as_json(binn *bn, jbl_json_printer pt, void *op, int lvl, jbl_p
       if (bn->type == BINN_OBJECT) {
         for (int i = 0; binn_object_next(&iter, key, &bv); ++i) {
           if (pretty) {
-            PT(0, 0, ' ', lvl + 1);
+            PT(0, 0, ' ', lvl * indent + indent);
           }
           rc = _jbl_write_json_string(key, -1, pt, op, pf);
           RCGO(rc, finish);
@@ -733,7 +736,7 @@ static iwrc _jbl_as_json(binn *bn, jbl_json_printer pt, void *op, int lvl, jbl_p
       } else {
         for (int i = 0; binn_map_next(&iter, &lv, &bv); ++i) {
           if (pretty) {
-            PT(0, 0, ' ', lvl + 1);
+            PT(0, 0, ' ', lvl * indent + indent);
           }
           PT(0, 0, '"', 1);
           rc = _jbl_write_int(lv, pt, op);
@@ -755,7 +758,7 @@ static iwrc _jbl_as_json(binn *bn, jbl_json_printer pt, void *op, int lvl, jbl_p
         }
       }
       if (bn->count && pretty) {
-        PT(0, 0, ' ', lvl);
+        PT(0, 0, ' ', lvl * indent);
       }
       PT(0, 0, '}', 1);
       break;
